@@ -25,7 +25,7 @@ CHECKS += [
 
 CHECKS += [
     dict(property_id="C15", category="exploration",
-         text="Model-based stateful testing: generated histories of the data operations (Create, CreateEphemeral, Set, SetEphemeral, Get, Delete, GetChildren, GetTree) by 1-3 real zkDCS clients plus a raw external writer, over 9 keys with random redundant-slash spellings and 7 JSON value shapes, interleaved with connection severing, cut-offs, forced and timer-driven session expiry and virtual-time advances, run against a fake ZooKeeper wire server in a synctest bubble; after every step each result and the whole server tree are compared with a reference tree model written from the statement, and the timing clause (ephemerals gone within the session timeout after a cut-off) is asserted on the virtual clock.",
+         text="Model-based stateful testing: generated histories of the data operations (Create, CreateEphemeral, Set, SetEphemeral, Get, Delete, GetChildren, GetTree) by 1-3 real zkDCS clients plus a raw external writer, over 9 keys with random redundant-slash spellings and 7 JSON value shapes, interleaved with connection severing, cut-offs, forced and timer-driven session expiry and virtual-time advances, run against a fake ZooKeeper wire server in a synctest bubble; after every step each result and the whole server tree are compared with a reference tree model written from the statement, and the timing clause (ephemerals gone within the session timeout after a cut-off) is asserted on the virtual clock. A create request can be lost on the wire while somebody else creates the key before the client re-sends it (injected through the interceptor): 'exists' is then the only right answer.",
          design_ref="DESIGN.md section 4, C15; section 2.1",
          note="Trusted: the fake ZooKeeper server's znode/session semantics (it supplies session liveness to the model); go-zookeeper and net.Pipe behave in the bubble as outside; faults fall between operations.",
          technique="stateful model-based property testing (rapid) of the real zkDCS against a reference tree model over a fake ZooKeeper wire server"),
@@ -73,7 +73,7 @@ CHECKS += [
 
 CHECKS += [
     dict(property_id="C08", category="exploration",
-         text="A real daemon is driven into the lost state (ZooKeeper link cut until the client gives the session up) on a master / HA replica / cascade host; for sequences of lost-state iterations the per-replica conditions (streaming with or without the semi-sync flag, stopped, other source, refusing, erroring, timing out), the local wait count and master flag, the outcome of the read-only attempt (ok / 1205 / hang / other), stuck semi-sync commits, elapsed time across inactivation_delay and reconnection are generated; the oracle is a decision table written from the statement and applied to ground truth and reachability at the start of each iteration, plus 'no statement to other hosts, no un-fencing or re-pointing while disconnected' and the offline -> semi-sync off -> read-only order for stuck commits.",
+         text="A real daemon is driven into the lost state (ZooKeeper link cut until the client gives the session up) on a master / HA replica / cascade host; for sequences of lost-state iterations the per-replica conditions (streaming with or without the semi-sync flag, stopped, other source, refusing, erroring, timing out), the local wait count and master flag, the outcome of the read-only attempt (ok / 1205 / hang / other), stuck semi-sync commits, elapsed time across inactivation_delay and reconnection are generated; the oracle is a decision table written from the statement and applied to ground truth and reachability at the start of each iteration, plus 'no statement to other hosts, no un-fencing or re-pointing while disconnected' and the offline -> semi-sync off -> read-only order for stuck commits. Replica conditions include threads that failed with an error recorded (not merely stopped).",
          design_ref="DESIGN.md section 4, C08",
          note="Trusted: fake MySQL's model of commits waiting for an ack (SET read_only blocks on them until the lock wait timeout; offline_mode kills sessions but does not release the wait; disabling semi-sync does). Postponement is judged leniently (window measured from the end of the first iteration that saw a timeout to the start of the current one).",
          technique="property-based testing of the real lost-state handler over fake servers with a decision-table oracle"),
@@ -102,7 +102,7 @@ CHECKS += [
 
 CHECKS += [
     dict(property_id="C19", category="exploration",
-         text="Unit half: the real Syncer and Controller run as a rapid state machine over in-memory implementations of the package's own DCS / Node / Cluster interfaces (registries with status new/enabled, lags around both marks, settings equal/relaxed/other, role changes, host removal, settings changed by hand, a drawn call of a drawn method failing); the oracle checks every DeleteHosts at the instant it happens (settings restored, or host no longer in the cluster) and the post-conditions of every Sync that returned nil. Simulation half: clusters with registered relaxed replicas and lagging targets go through every request kind; at the promotion instant the promoted node must be neither registered nor relaxed. One defect found by the unit half is recorded as a known finding.",
+         text="Unit half: the real Syncer and Controller run as a rapid state machine over in-memory implementations of the package's own DCS / Node / Cluster interfaces (registries with status new/enabled, lags around both marks, settings equal/relaxed/other, role changes, host removal, settings changed by hand, a drawn call of a drawn method failing); the oracle checks every DeleteHosts at the instant it happens (settings restored, or host no longer in the cluster) and the post-conditions of every Sync that returned nil. Simulation half: clusters with registered relaxed replicas and lagging targets go through every request kind; at the promotion instant the promoted node must be neither registered nor relaxed. One defect found by the unit half is recorded as a known finding. A third unit (TestVerifC19Steady) runs ordinary manager iterations through the real cluster/DCS adapters while the registered replica's health record vanishes or goes stale; after every round a reachable replica that carries the relaxed settings in ground truth must still be registered.",
          design_ref="DESIGN.md section 4, C19",
          note="Trusted: 'restored' means the master's settings or the fully durable defaults the code falls back to when the master's settings cannot be read.",
          technique="stateful model-based property testing of the real Syncer/Controller over in-memory interface implementations with fault injection + instant-of-promotion oracle in the cluster simulation"),
